@@ -1,6 +1,7 @@
 package props
 
 import (
+	"bytes"
 	"fmt"
 	"strings"
 
@@ -223,6 +224,7 @@ func place(lines []string, placement int) string {
 }
 
 func runC17(r *core.Run) {
+	runC17Volume(r)
 	maxRows := core.Pick(r, 1, 2)
 	type combo struct {
 		h, d int
@@ -407,5 +409,79 @@ func replayC17(r *core.Run, v *core.Violation) {
 	}
 	s := r.Sub(v.Sub, "replay of one document (generic clauses)")
 	c17Generic(s, core.NewConv(cfg), v.Input())
+	s.Done()
+}
+
+// runC17Volume: tables whose total number of padded cells is large. Each row is ordinary; only the cumulative volume
+// inside one table grows (c columns, r one-cell body rows, c*r just beyond 2^19, 2^20 and 2^21 where reachable).
+func runC17Volume(r *core.Run) {
+	s := r.Sub("volume", "for c = 2^0..2^12 columns and r = ceil(T/c)+1 one-cell body rows with T in {2^19, 2^20} (quick) / also 2^21 (thorough): the rendered table is rectangular (every body row has exactly c cells, one header row) — each row is short and needs c-1 padding cells, only the cumulative number of padded cells is large; output scanned with a counting scanner (the strict tokenizer would need minutes on 10 MB)")
+	cfg := core.MustCfg("table")
+	type job struct{ c, r int }
+	var jobs []job
+	ts := []int{1 << 19, 1 << 20}
+	if !r.Quick() {
+		ts = append(ts, 1<<21)
+	}
+	for _, t := range ts {
+		for e := 1; e <= 12; e++ {
+			c := 1 << e
+			jobs = append(jobs, job{c, t/(c-1) + 2})
+		}
+	}
+	core.ForEachIndex(len(jobs), core.Workers()/2, func(w int) func(int) {
+		return func(i int) {
+			if r.Expired() {
+				s.Incomplete("internal deadline reached")
+				return
+			}
+			j := jobs[i]
+			var b strings.Builder
+			b.WriteString(strings.Repeat("|h", j.c) + "|\n" + strings.Repeat("|-", j.c) + "|\n")
+			for k := 0; k < j.r; k++ {
+				b.WriteString("|x|\n")
+			}
+			doc := []byte(b.String())
+			cv := core.NewConv(cfg)
+			out, ok := mustConvert(s, cv, doc)
+			s.Evals.Add(1)
+			if !ok {
+				return
+			}
+			// counting scanner: cells per <tr>
+			rows, bad, badRow, badCells := 0, 0, -1, 0
+			rest := out
+			for {
+				a := bytes.Index(rest, []byte("<tr>"))
+				if a < 0 {
+					break
+				}
+				e := bytes.Index(rest[a:], []byte("</tr>"))
+				if e < 0 {
+					break
+				}
+				row := rest[a : a+e]
+				n := bytes.Count(row, []byte("<td")) + bytes.Count(row, []byte("<th"))
+				if n != j.c {
+					bad++
+					if badRow < 0 {
+						badRow, badCells = rows, n
+					}
+				}
+				rows++
+				rest = rest[a+e:]
+			}
+			if bytes.Count(out, []byte("<table>")) != 1 || rows != j.r+1 {
+				s.Violate("volume:table-shape", cfg.String(), []byte(fmt.Sprintf("%d columns, %d one-cell rows", j.c, j.r)), map[string]any{"columns": j.c, "rows": j.r}, fmt.Sprintf("expected one table with %d rows, found %d tables / %d rows", j.r+1, bytes.Count(out, []byte("<table>")), rows), "", "")
+			} else if bad > 0 {
+				s.Violate("volume:row-width", cfg.String(), []byte(fmt.Sprintf("%d columns, %d one-cell rows", j.c, j.r)), map[string]any{"columns": j.c, "rows": j.r, "generator": "header |h×c|, delimiter |-×c|, then r lines |x|"}, fmt.Sprintf("%d of %d rows do not have %d cells; first: row %d has %d", bad, rows, j.c, badRow, badCells), fmt.Sprint(j.c), fmt.Sprint(badCells))
+			}
+			s.Distinct(uint64(j.c)<<32 | uint64(j.r))
+		}
+	}, nil)
+	s.States.Store(int64(len(jobs)))
+	s.Transitions.Store(s.Evals.Load())
+	s.Bound = fmt.Sprintf("%d (columns, rows) pairs, up to %d padded cells per table", len(jobs), ts[len(ts)-1])
+	s.AddSample("1024 columns × 1027 one-cell rows")
 	s.Done()
 }
